@@ -1,6 +1,6 @@
 """Proof orchestration: per obligation  (1) abstraction proof ("via") if the spec gives one, (2) direct portfolio,
 (3) falsification by partial pinning.  All z3 API calls happen in the main thread; solver processes run 16-wide."""
-import z3, random, time, tempfile, shutil, concurrent.futures, fractions
+import os, z3, random, time, tempfile, shutil, concurrent.futures, fractions
 import smt
 from symex import Obligation
 from values import QForall
@@ -133,8 +133,11 @@ class Prover:
         """obs: list of Obligation; inputs_of(ob) -> list of input leaf symbols (for pinning / replay values)"""
         # stage 0: trivial ones
         pending = []
+        only_ = os.environ.get('VERIF_ONLY_OB')
         for ob in obs:
             ob.steps = []
+            if only_ and only_ not in ob.name:
+                ob.status = 'skipped'; ob.time = 0.0; ob.detail = 'skipped (VERIF_ONLY_OB)'; continue
             pending.append(ob)
         # stage 0.5: cuts -- intermediate facts named by the spec; each is itself proved from the path condition (as a
         # separate, counted obligation) and only then added to the hypotheses of the clause it belongs to
@@ -178,19 +181,6 @@ class Prover:
                     t.ob.status = 'unsat'; t.ob.backend = t.backend; t.ob.smt2 = t.smt2
                     t.ob.steps.append(self.rec(t.ob, t))
             pending = [ob for ob in pending if ob.status != 'unsat']
-            tasks = []
-            for ob in pending:
-                try:
-                    hy, gl = smt.expand(ob, relevant=True)
-                    tasks.append(Task(ob, 'direct-relevant', hy, gl, FAST + [('z3-4.8.12', 10)]))
-                except Exception:
-                    pass
-            run_tasks(tasks)
-            for t in tasks:
-                if t.status == 'unsat':
-                    t.ob.status = 'unsat'; t.ob.backend = t.backend; t.ob.smt2 = t.smt2
-                    t.ob.steps.append(self.rec(t.ob, t))
-            pending = [ob for ob in pending if ob.status != 'unsat']
             # quantified facts handed to the solvers as quantifiers (E-matching): list / permutation reasoning needs chains of
             # instances that one round of term instantiation does not produce; only 'unsat' is kept
             tasks = []
@@ -208,6 +198,19 @@ class Prover:
             for t in tasks:
                 if t.status == 'unsat':
                     t.ob.status = 'unsat'; t.ob.backend = t.backend + '+quantifiers'; t.ob.smt2 = t.smt2
+                    t.ob.steps.append(self.rec(t.ob, t))
+            pending = [ob for ob in pending if ob.status != 'unsat']
+            tasks = []
+            for ob in pending:
+                try:
+                    hy, gl = smt.expand(ob, relevant=True)
+                    tasks.append(Task(ob, 'direct-relevant', hy, gl, FAST + [('z3-4.8.12', 10)]))
+                except Exception:
+                    pass
+            run_tasks(tasks)
+            for t in tasks:
+                if t.status == 'unsat':
+                    t.ob.status = 'unsat'; t.ob.backend = t.backend; t.ob.smt2 = t.smt2
                     t.ob.steps.append(self.rec(t.ob, t))
             pending = [ob for ob in pending if ob.status != 'unsat']
             # equational back end: polynomial identities modulo the hypothesis equalities (sympy, exact)
@@ -262,6 +265,12 @@ class Prover:
             have = set(t.get_id() for t in base)
             ob.info['inputs'] = base + [t for t in heap_inputs(hyps + [goal]) if t.get_id() not in have]
         self.direct(pending, FAST, 'direct-fast', inputs_of)
+        if os.environ.get('VERIF_FAST'):
+            # development mode: no falsification / long attempts; what is not proved quickly stays undecided
+            for ob in obs:
+                ob.time = sum(s_['time'] for s_ in ob.steps)
+                ob.detail = '; '.join('%s=%s(%s %.2fs)' % (s_['label'], s_['status'], s_['backend'], s_['time']) for s_ in ob.steps[-6:])
+            return obs
         # stage 3: falsification by (full / partial) pinning of the inputs for the undecided ones
         unk = [ob for ob in pending if ob.status == 'unknown']
         if unk:
